@@ -8,6 +8,7 @@ import re
 from .engine import (CFLOW, ERR, FALSE, NONE, OK, OPTION, RESULT, SOME, TRUE, UNIT, Effect, contains_kind,
                      mkcmp, negate, variant, fold_bin)
 
+from .facts import strip_generics
 EXACT = {}
 _REGEX = []
 
@@ -158,6 +159,30 @@ def p_from(eng, st, name, args, site, depth, call):
 @prim_re(r"^std::convert::num::<impl std::convert::From(<[ui](8|16|32|64|128|size)>)? for [ui](8|16|32|64|128|size)>::from$")
 def p_int_widen(eng, st, name, args, site, depth, call):
     return one(st, eng.val(st, args[0]))        # std implements From only for lossless integer conversions: the same number
+
+
+@prim_re(r"(^|[ <])std::convert::TryInto(>|<.*>)?::try_into$|(^|[ <])std::convert::TryFrom(>|<.*>)?::try_from$")
+def p_try_from(eng, st, name, args, site, depth, call):
+    impl = eng.workspace_try_from(call)
+    if impl is not None and depth < eng.max_depth and impl.path not in st.stack:
+        return eng.run_body(st, impl, [eng.val(st, args[0])], depth + 1, site)
+    return opaque_call(eng, st, name, args, site, call)
+
+
+@prim("std::iter::once", "core::iter::once")
+def p_once(eng, st, name, args, site, depth, call):
+    return one(st, ("list", (eng.val(st, args[0]),)))       # the one-element sequence
+
+
+@prim("std::iter::Iterator::collect")
+def p_collect(eng, st, name, args, site, depth, call):
+    # a literally known sequence collected into a Vec is that sequence (anything else stays the opaque `collect(..)`)
+    v = eng.val(st, args[0])
+    body = eng.facts.bodies.get(st.stack[-1]) if st.stack else None
+    if v[0] == "list" and body is not None and call is not None and not call["dest"]["p"] \
+            and strip_generics(body.locals[call["dest"]["l"]]["ty"]) in ("std::vec::Vec", "alloc::vec::Vec"):
+        return one(st, v)
+    return opaque_call(eng, st, name, args, site, call)
 
 
 @prim("cosmwasm_std::coin", "cosmwasm_std::coins")
@@ -426,6 +451,28 @@ def p_take_opt(eng, st, name, args, site, depth, call):
     if a[0] == "ref":
         eng.write_loc(st, a[1], a[2], NONE)
     return one(st, v)
+
+
+@prim("std::option::Option::replace", "std::option::Option::insert")
+def p_replace_opt(eng, st, name, args, site, depth, call):
+    # replace(&mut self, v) -> old value, self = Some(v); insert(&mut self, v) -> &mut v, self = Some(v)
+    a = args[0]
+    old = eng.val(st, a)
+    new = eng.val(st, args[1])
+    if a[0] == "ref":
+        eng.write_loc(st, a[1], a[2], SOME(new))
+    return one(st, old if name.endswith("replace") else new)
+
+
+@prim("std::mem::swap")
+def p_mem_swap(eng, st, name, args, site, depth, call):
+    a, b = args[0], args[1]
+    va, vb = eng.val(st, a), eng.val(st, b)
+    if a[0] == "ref" and b[0] == "ref":
+        eng.write_loc(st, a[1], a[2], vb)
+        eng.write_loc(st, b[1], b[2], va)
+        return one(st, UNIT)
+    return opaque_call(eng, st, name, args, site, call)
 
 
 # --------------------------------------------------------------------------- comparisons
@@ -1178,6 +1225,10 @@ def _iter_loop(eng, st, name, args, site, depth, call):
     fallible = op.startswith("try_")
     clos = args[2] if has_acc else args[1]
     init = eng.val(st, args[1]) if has_acc else UNIT
+    if it[0] == "default" or it == NONE:
+        it = ("list", ())               # the Default of a collection / None, iterated: no element
+    elif it[0] == "variant" and it[1] == OPTION and it[2] == "Some":
+        it = ("list", (it[3][0][1],))   # Some(x), iterated: x
     if it[0] == "list" and len(it[1]) <= 8:
         # a literal sequence ([a, b, c].iter().fold(..)): apply the closure to each element in order
         states = [(st, init)]
